@@ -4394,6 +4394,37 @@ let include_name fi root_params cls =
         | ParseFuel -> OutOfFuel)
   else Ok cls
 
+type walker =
+  node -> string list -> string list -> node -> ((node * string list) * node)
+  res
+
+(** val include_loop :
+    nat -> ncfg -> cls_entry list -> walker -> string list -> string list ->
+    string list -> string list -> node -> (string list * node) res **)
+
+let rec include_loop fi cfg tbl recur self_loc loading cs seen0 root =
+  match cs with
+  | [] -> Ok (seen0, root)
+  | c :: cs' ->
+    bind (include_name fi root.n_params c) (fun name0 ->
+      let name = abs_class_name self_loc name0 in
+      if mem name seen0
+      then include_loop fi cfg tbl recur self_loc loading cs' seen0 root
+      else if mem name loading
+           then Err (EIncludeLoop (loading, name))
+           else bind (read_class cfg tbl self_loc name) (fun r ->
+                  match r with
+                  | Some cn ->
+                    bind (recur cn seen0 (app loading (name :: [])) root)
+                      (fun pat ->
+                      let (p, root1) = pat in
+                      let (_, seen1) = p in
+                      include_loop fi cfg tbl recur self_loc loading cs'
+                        (app seen1 (name :: [])) root1)
+                  | None ->
+                    include_loop fi cfg tbl recur self_loc loading cs' seen0
+                      root))
+
 (** val render_impl :
     nat -> nat -> ncfg -> cls_entry list -> node -> string list -> string
     list -> node -> ((node * string list) * node) res **)
@@ -4403,27 +4434,8 @@ let rec render_impl f fi cfg tbl self seen0 loading root =
   | O -> OutOfFuel
   | S f' ->
     bind
-      (let rec go cs seen1 root0 =
-         match cs with
-         | [] -> Ok (seen1, root0)
-         | c :: cs' ->
-           bind (include_name fi root0.n_params c) (fun name0 ->
-             let name = abs_class_name self.n_loc name0 in
-             if mem name seen1
-             then go cs' seen1 root0
-             else if mem name loading
-                  then Err (EIncludeLoop (loading, name))
-                  else bind (read_class cfg tbl self.n_loc name) (fun r ->
-                         match r with
-                         | Some cn ->
-                           bind
-                             (render_impl f' fi cfg tbl cn seen1
-                               (app loading (name :: [])) root0) (fun pat ->
-                             let (p, root1) = pat in
-                             let (_, seen2) = p in
-                             go cs' (app seen2 (name :: [])) root1)
-                         | None -> go cs' seen1 root0))
-       in go self.n_classes seen0 root) (fun pat ->
+      (include_loop fi cfg tbl (render_impl f' fi cfg tbl) self.n_loc loading
+        self.n_classes seen0 root) (fun pat ->
       let (seen', root') = pat in
       bind (merge_into self root') (fun pat0 ->
         let (self', root'') = pat0 in Ok ((self', seen'), root'')))
